@@ -578,7 +578,7 @@ const rule = "KDE: rapid-generated samples (1..40 values with repeats, optional 
 	"Oracle: independently summed kernel average, folded at the boundaries by an explicit image sum (1e-12 unbounded, 1e-9 bounded); " +
 	"zero outside; CDF 0 at BoundaryMin and 1 from BoundaryMax; PDF>=0; CDF monotone; Gauss-Legendre integral of PDF (panels split " +
 	"at every kink image) = CDF difference (1e-8); total mass 1; Bounds finite, inside, >=98% of the mass; bandwidth rules vs the " +
-	"formulas. Non-trivial: >=2 distinct values and a boundary or weights present. distinct = canonical JSON."
+	"formulas. Non-trivial: >=2 distinct values and a boundary or weights present. distinct = canonical JSON. Later additions: Bounds of the delta kernel by the weight of the sample values inside (under a watchdog), round bandwidths (1 above all), Sorted flag, a KDE value with an earlier life."
 
 func drawCase(t *rapid.T) *Case {
 	c := &Case{}
